@@ -20,6 +20,16 @@ longjmp handler the explicit `if (!ptr) { cleanup; mjERROR }` blocks of the call
 `.tryMalloc` – the proposed fix: the life-cycle functions allocate with a non-raising variant and keep
 their explicit cleanup.
 
+Initialisation and ownership across a non-local exit are modelled too: a block's contents are
+*indeterminate* until written (`mju_malloc` promises nothing), the struct fields the delete functions read
+(`buffer`, `arena`, `threadpool`, `nplugin`) are tracked per block, and a read (`readFld`, `freeFld`) of a
+field that was never written is a fault (`uninitRead`).  `publish c v` is `*dest = v` into a variable `c` of
+a caller frame that survives the longjmp; a scenario may carry a handler `onJump` (the catch block of
+mjCModel::Compile: `mj_deleteModel(model); mj_deleteData(data);`) which runs on the published variables
+after the jump.  `compile` is mj_compile of a plain model (no plugin, no mesh): mj_makeModel, the partial
+mjData (mj_makeRawData … mj_deleteData), the complete one (mj_makeData … mj_deleteData), under the
+compiler's own longjmp-ing handler, then the caller's mj_deleteModel.
+
 Not modelled: plugins (nplugin = 0), the size-validation early returns (warnings), file I/O, C++ `new`.
 Core Lean only.
 -/
@@ -27,6 +37,14 @@ namespace MjProof.AllocProtocol
 
 inductive Var where
   | m | mbuf | d | dbuf | darena | tmp | vfs
+  | loc        -- `*dest` is a local of the calling library function (mj_makeData, mj_copyData, …): dead after a longjmp
+  | cm | cd    -- `model` and `data` of mjCModel::Compile: they survive the longjmp and are read by its catch block
+  deriving DecidableEq, Repr
+
+/-- the struct fields the delete functions read (mj_deleteData → mju_threadpool, freeDataBuffers;
+    mj_deleteModel → freeModelBuffers). -/
+inductive Fld where
+  | buffer | arena | threadpool | nplugin
   deriving DecidableEq, Repr
 
 inductive Regime where
@@ -50,7 +68,13 @@ inductive Step where
   | use (v : Var)                                    -- read or write through v
   | useIfSet (g v : Var)                             -- if (g) { … v … }
   | free (v : Var)                                   -- mju_free(v)
-  | ret (v : Var)                                    -- return v / *dest = v
+  | ret (v : Var)                                    -- return v
+  | setFld (v : Var) (f : Fld) (src : Option Var)    -- v->f = 0 / NULL (`none`)  or  v->f = src
+  | zeroAll (v : Var)                                -- memset(v, 0, sizeof *v)
+  | readFld (v : Var) (f : Fld)                      -- a branch / loop bound / argument computed from v->f
+  | freeFld (v : Var) (f : Fld)                      -- mju_free(v->f)
+  | publish (c v : Var)                              -- *dest = v, `c` = the variable `dest` points to
+  | clearPub (c : Var)                               -- c = nullptr in the frame that owns `c`
   deriving DecidableEq, Repr
 
 inductive Ev where
@@ -66,11 +90,13 @@ inductive Fault where
   | useAfterFree (v : Var)
   | doubleFree (v : Var)
   | unbound (v : Var)     -- (model hygiene)
+  | uninitRead (v : Var) (f : Fld)   -- v->f read before it was ever written: an indeterminate value is used
   deriving DecidableEq, Repr
 
 inductive Out where
   | returned (obj : Option Nat)   -- the function returned; `some id` = a live object handed to the caller
   | jumped                        -- the error handler left through longjmp
+  | caught                        -- … and the scenario's handler (catch block) ran to completion: error return
   | fault (f : Fault)
   deriving DecidableEq, Repr
 
@@ -80,9 +106,11 @@ structure H where
   freed : List Nat
   env : List (Var × Option Nat)       -- none = NULL
   trace : List Ev                     -- most recent first
+  flds : List ((Nat × Fld) × Option Nat) := []   -- written fields of blocks (most recent first); absent = indeterminate
+  pub : List (Var × Option Nat) := []            -- variables of the frame that survives a longjmp (absent = nullptr)
   deriving Repr
 
-def H.init : H := ⟨0, [], [], [], []⟩
+def H.init : H := ⟨0, [], [], [], [], [], []⟩
 
 def lookup (env : List (Var × Option Nat)) (v : Var) : Option (Option Nat) :=
   match env with
@@ -95,6 +123,18 @@ def deref (h : H) (v : Var) : Option Fault :=
   | none => some (.unbound v)
   | some none => some (.nullDeref v)
   | some (some id) => if id ∈ h.live then none else some (.useAfterFree v)
+
+def lookupFld (fl : List ((Nat × Fld) × Option Nat)) (id : Nat) (f : Fld) : Option (Option Nat) :=
+  match fl with
+  | [] => none
+  | ((i, g), x) :: rest => if i = id ∧ g = f then some x else lookupFld rest id f
+
+/-- the live block a struct pointer variable refers to (or the fault of dereferencing it). -/
+def block (h : H) (v : Var) : Except Fault Nat :=
+  match lookup h.env v with
+  | none => .error (.unbound v)
+  | some none => .error (.nullDeref v)
+  | some (some id) => if id ∈ h.live then .ok id else .error (.useAfterFree v)
 
 /-- `mju_free(v)`: NULL is ignored; freeing a block twice is a fault. -/
 def freeVar (h : H) (v : Var) : Except Fault H :=
@@ -173,21 +213,78 @@ def run (r : Regime) (fails : Nat → Bool) : List Step → H → Out × H
     match lookup h.env v with
     | none => (.fault (.unbound v), h)
     | some x => (.returned x, h)
+  | .setFld v f src :: rest, h =>
+    match block h v with
+    | .error e => (.fault e, h)
+    | .ok id =>
+      match src with
+      | none => run r fails rest { h with flds := ((id, f), none) :: h.flds }
+      | some w =>
+        match lookup h.env w with
+        | none => (.fault (.unbound w), h)
+        | some x => run r fails rest { h with flds := ((id, f), x) :: h.flds }
+  | .zeroAll v :: rest, h =>
+    match block h v with
+    | .error e => (.fault e, h)
+    | .ok id =>
+      run r fails rest { h with flds := ((id, .buffer), none) :: ((id, .arena), none) :: ((id, .threadpool), none) ::
+                                         ((id, .nplugin), none) :: h.flds }
+  | .readFld v f :: rest, h =>
+    match block h v with
+    | .error e => (.fault e, h)
+    | .ok id =>
+      match lookupFld h.flds id f with
+      | none => (.fault (.uninitRead v f), h)
+      | some _ => run r fails rest h
+  | .freeFld v f :: rest, h =>
+    match block h v with
+    | .error e => (.fault e, h)
+    | .ok id =>
+      match lookupFld h.flds id f with
+      | none => (.fault (.uninitRead v f), h)
+      | some none => run r fails rest h
+      | some (some b) =>
+        if b ∈ h.live then
+          run r fails rest { h with live := h.live.filter (· ≠ b), freed := b :: h.freed, trace := .f b :: h.trace }
+        else (.fault (.doubleFree v), h)
+  | .publish c v :: rest, h =>
+    match lookup h.env v with
+    | none => (.fault (.unbound v), h)
+    | some x => run r fails rest { h with pub := (c, x) :: h.pub }
+  | .clearPub c :: rest, h => run r fails rest { h with pub := (c, none) :: h.pub }
 
 /-- a scenario: the library function(s), then what the caller does with a returned object. -/
 structure Scenario where
   body : List Step
   cleanup : List Step
+  /-- the handler the longjmp lands in, if the scenario has one of its own: for each variable of the
+      surviving frame, what is done with it when it is not nullptr (`if (x) { … }`). -/
+  onJump : Option (List (Var × List Step)) := none
   deriving Repr
 
+/-- the catch block: runs in the surviving frame (its variables are the published ones). -/
+def runCatch (r : Regime) (fails : Nat → Bool) : List (Var × List Step) → H → Out × H
+  | [], h => (.caught, h)
+  | (c, prog) :: rest, h =>
+    match lookup h.pub c with
+    | some (some _) =>
+      (match run r fails prog { h with env := h.pub } with
+       | (.returned _, h') => runCatch r fails rest h'
+       | other => other)
+    | _ => runCatch r fails rest h
+
 /-- run the body; if it handed an object to the caller, the caller deletes it.  After a longjmp the
-    caller holds nothing (the return value is lost). -/
+    caller holds nothing (the return value is lost); a scenario with a handler of its own runs it. -/
 def exec (r : Regime) (fails : Nat → Bool) (s : Scenario) : Out × H :=
   match run r fails s.body H.init with
   | (.returned (some _), h) =>
     (match run r fails s.cleanup h with
      | (.returned _, h') => (.returned none, h')
      | other => other)
+  | (.jumped, h) =>
+    (match s.onJump with
+     | none => (.jumped, h)
+     | some c => runCatch r fails c h)
   | other => other
 
 /-! ## The scenarios (engine_io.c, nplugin = 0)
@@ -200,44 +297,54 @@ def Variant.raising : Variant → Bool
   | .asIs => true
   | .tryMalloc => false
 
-/-- mj_makeModel(&m, …) with `*dest == NULL`. -/
-def makeModelBody (vt : Variant) (szModel nbuffer : Nat) : List Step :=
-  [.alloc .m szModel vt.raising, .ifNull .m [] .error, .use .m,
-   .alloc .mbuf nbuffer vt.raising, .ifNull .mbuf [.m] .error, .use .m, .use .mbuf, .use .m]
+/-- mj_makeModel(&dest, …) with `*dest == NULL`: struct, memset, buffer (stored into the struct by the
+    same statement that allocates it), `*dest = m` last. -/
+def makeModelBody (vt : Variant) (szModel nbuffer : Nat) (dest : Var) : List Step :=
+  [.alloc .m szModel vt.raising, .ifNull .m [] .error, .zeroAll .m,
+   .alloc .mbuf nbuffer vt.raising, .setFld .m .buffer (some .mbuf), .ifNull .mbuf [.m] .error,
+   .use .m, .use .mbuf, .use .m, .publish dest .m]
 
-/-- mj_deleteModel(m). -/
-def deleteModel : List Step := [.use .m, .free .mbuf, .free .m]
+/-- mj_deleteModel(v) behind its `if (v)`: freeModelBuffers (mju_free(v->buffer)), mju_free(v). -/
+def deleteModelOf (v : Var) : List Step := [.freeFld v .buffer, .free v]
 
-/-- mj_makeRawData(&d, m) with `*dest == NULL`. -/
-def makeRawDataBody (vt : Variant) (szData nbuffer narena : Nat) : List Step :=
+def deleteModel : List Step := deleteModelOf .m
+
+/-- mj_makeRawData(&dest, m) with `*dest == NULL`: struct, `d->buffer = d->arena = NULL`, buffer, arena,
+    mj_setPtrData, `d->threadpool = 0`, `d->nplugin = 0`, `*dest = d` last. -/
+def makeRawDataBody (vt : Variant) (szData nbuffer narena : Nat) (dest : Var) : List Step :=
   [.alloc .d szData vt.raising, .ifNull .d [] .error, .use .d,
-   .alloc .dbuf nbuffer vt.raising, .ifNull .dbuf [.d] .error,
-   .use .d, .alloc .darena narena vt.raising, .ifNull .darena [.dbuf, .d] .error,
-   .use .d]
+   .setFld .d .buffer none, .setFld .d .arena none,
+   .alloc .dbuf nbuffer vt.raising, .setFld .d .buffer (some .dbuf), .ifNull .dbuf [.d] .error,
+   .use .d, .alloc .darena narena vt.raising, .setFld .d .arena (some .darena), .ifNull .darena [.dbuf, .d] .error,
+   .use .d, .setFld .d .threadpool none, .setFld .d .nplugin none, .publish dest .d]
 
-/-- mj_deleteData(d). -/
-def deleteData : List Step := [.use .d, .free .dbuf, .free .darena, .free .d]
+/-- mj_deleteData(v) behind its `if (v)`: mju_threadpool(v, 0) (`if (v->threadpool)`), freeDataBuffers
+    (the plugin loop bounded by `v->nplugin`, mju_free(v->buffer), mju_free(v->arena)), mju_free(v). -/
+def deleteDataOf (v : Var) : List Step :=
+  [.readFld v .threadpool, .readFld v .nplugin, .freeFld v .buffer, .freeFld v .arena, .free v]
+
+def deleteData : List Step := deleteDataOf .d
 
 /-- `d = mj_makeData(m); … mj_deleteData(d)`. -/
 def makeData (vt : Variant) (szData nbuffer narena : Nat) : Scenario :=
-  { body := makeRawDataBody vt szData nbuffer narena ++
+  { body := makeRawDataBody vt szData nbuffer narena .loc ++
             [.useIfSet .d .d, .useIfSet .d .dbuf, .useIfSet .d .darena, .ret .d],
     cleanup := deleteData }
 
 /-- `d2 = mj_copyData(NULL, m, src); … mj_deleteData(d2)` (mj_copyDataVisual: no test of `dest`
     after mj_makeRawData). -/
 def copyData (vt : Variant) (szData nbuffer narena : Nat) : Scenario :=
-  { body := makeRawDataBody vt szData nbuffer narena ++ [.use .d, .use .dbuf, .use .darena, .ret .d],
+  { body := makeRawDataBody vt szData nbuffer narena .loc ++ [.use .d, .use .dbuf, .use .darena, .ret .d],
     cleanup := deleteData }
 
 /-- `m2 = mj_copyModel(NULL, src); … mj_deleteModel(m2)`. -/
 def copyModel (vt : Variant) (szModel nbuffer : Nat) : Scenario :=
-  { body := makeModelBody vt szModel nbuffer ++ [.ifNull .m [] .error, .use .m, .use .mbuf, .ret .m],
+  { body := makeModelBody vt szModel nbuffer .loc ++ [.ifNull .m [] .error, .use .m, .use .mbuf, .ret .m],
     cleanup := deleteModel }
 
 /-- `m2 = mj_loadModelBuffer(buf, n); … mj_deleteModel(m2)` on a well-formed buffer. -/
 def loadModel (vt : Variant) (szModel nbuffer : Nat) : Scenario :=
-  { body := makeModelBody vt szModel nbuffer ++ [.ifNull .m [] .warnReturn, .use .m, .use .mbuf, .ret .m],
+  { body := makeModelBody vt szModel nbuffer .loc ++ [.ifNull .m [] .warnReturn, .use .m, .use .mbuf, .ret .m],
     cleanup := deleteModel }
 
 /-- `mj_saveModel(m, filename, NULL, 0)`: temporary buffer, then mju_writeResource's local mjVFS
@@ -252,5 +359,51 @@ def saveModel : Variant → Nat → Nat → Scenario
     { body := [.alloc .tmp szBuf false, .ifNull .tmp [] .warnReturn, .use .tmp,
                .alloc .vfs szVfs false, .ifNull .vfs [] (.warnFreeReturn [.tmp]), .use .vfs, .free .vfs, .free .tmp],
       cleanup := [] }
+
+/-! ## mj_compile of a plain model (user_model.cc: mjCModel::Compile / TryCompile)
+
+`TryCompile(model, data, vfs)` works on *references* to Compile's variables, so `mj_makeModel(&m, …)` and
+`mj_makeRawData(&d, m)` publish into the frame whose catch block runs after an engine error (the compiler
+installs its own longjmp-ing log handler, whatever the global handler does – the scenario is run with
+`.longjmp`; a C++ `throw mjCError` ends in the same catch block and is written as `.error` too):
+
+    mj_makeModel(&m, …); copy objects into m
+    mj_makeRawData(&d, m); if (!d) throw; mj_resetData, mj_setConst, …; mj_deleteData(d); d = nullptr;
+    d = mj_makeData(m); if (!d) throw; mj_step; mj_deleteData(d); d = nullptr;
+    catch: mj_deleteModel(model); mj_deleteData(data);
+
+then the caller deletes the returned model. -/
+
+/-- the data life-cycle inside TryCompile, parameterised by the mj_makeRawData body so that variants of it
+    can be compared (`publishFirst` below). -/
+def compileWith (mkModel mkRaw1 mkRaw2 : List Step) : Scenario :=
+  { body := mkModel ++ [.use .m, .use .mbuf] ++
+            mkRaw1 ++ [.ifNull .d [] .error, .use .d, .use .dbuf, .use .darena] ++ deleteDataOf .d ++ [.clearPub .cd] ++
+            mkRaw2 ++ [.useIfSet .d .d, .useIfSet .d .dbuf, .useIfSet .d .darena, .publish .cd .d,
+                       .ifNull .d [] .error, .use .d, .use .dbuf, .use .darena] ++ deleteDataOf .d ++ [.clearPub .cd] ++
+            [.use .m, .ret .m],
+    cleanup := deleteModelOf .m,
+    onJump := some [(.cm, deleteModelOf .cm), (.cd, deleteDataOf .cd)] }
+
+def compile (vt : Variant) (szModel nbufM szData nbufD narena : Nat) : Scenario :=
+  compileWith (makeModelBody vt szModel nbufM .cm) (makeRawDataBody vt szData nbufD narena .cd)
+    (makeRawDataBody vt szData nbufD narena .loc)
+
+/-- NOT the tree: mj_makeRawData storing the struct into `*dest` right after `d->buffer = d->arena = NULL`,
+    before the buffer / arena allocations and before `d->threadpool`, `d->nplugin` are written (the kind of
+    reordering that makes the struct reachable from a recovering caller too early). -/
+def makeRawDataPublishFirst (vt : Variant) (szData nbuffer narena : Nat) (dest : Var) : List Step :=
+  [.alloc .d szData vt.raising, .ifNull .d [] .error, .use .d,
+   .setFld .d .buffer none, .setFld .d .arena none, .publish dest .d,
+   .alloc .dbuf nbuffer vt.raising, .setFld .d .buffer (some .dbuf), .ifNull .dbuf [.d] .error,
+   .use .d, .alloc .darena narena vt.raising, .setFld .d .arena (some .darena), .ifNull .darena [.dbuf, .d] .error,
+   .use .d, .setFld .d .threadpool none, .setFld .d .nplugin none]
+
+/-- NOT the tree: TryCompile without the `d = nullptr` after the first mj_deleteData(d). -/
+def compileNoClear (vt : Variant) (szModel nbufM szData nbufD narena : Nat) : Scenario :=
+  { compile vt szModel nbufM szData nbufD narena with
+    body := makeModelBody vt szModel nbufM .cm ++ [.use .m, .use .mbuf] ++
+            makeRawDataBody vt szData nbufD narena .cd ++ [.use .d] ++ deleteDataOf .d ++
+            makeRawDataBody vt szData nbufD narena .loc ++ [.publish .cd .d] ++ deleteDataOf .d ++ [.clearPub .cd, .ret .m] }
 
 end MjProof.AllocProtocol
